@@ -80,6 +80,10 @@ func main() {
 		h.GenTmo(rng, thorough, emit)
 	case "trip":
 		h.GenTrip(rng, thorough, emit)
+	case "tripw":
+		h.GenTripW(rng, thorough, emit)
+	case "wtmo":
+		h.GenWtmo(rng, thorough, emit)
 	case "life":
 		h.GenLife(rng, thorough, emit)
 	case "lmtp":
